@@ -1,3 +1,219 @@
 package main
 
-func t3() {}
+// T3: serialiser skeletons.  The bodies of the append-only serialisers of pkg/protocol are
+// transcribed statement by statement into the emission language of coq/Model/Ser.v:
+//
+//	dst = append(dst, e...)            -> Raw e            (one per appended expression)
+//	dst = appendHeaderLine(dst, k, v)  -> HLine k v
+//	dst = f(dst, args...)              -> CallS "f" args
+//	statement not mentioning dst       -> Skip
+//	if c { A } else { B }              -> If A B           (condition uninterpreted)
+//	for / range                        -> Loop body
+//	return append(dst, e...)           -> Ret [Raw e]
+//	return dst                         -> Ret []
+//	anything else                      -> Opaque "<source>"   (no side condition accepts it)
+//
+// Expressions: bytestr.X and literals are Lit <bytes> (resolved through T1), everything else
+// is Atom "<source text>" - a value the environment (the application) controls.
+
+import (
+	"bytes"
+	"fmt"
+	"go/ast"
+	"go/parser"
+	"go/printer"
+	"go/token"
+	"os"
+	"path/filepath"
+	"strconv"
+	"strings"
+)
+
+var t3fset = token.NewFileSet()
+var t3bytestr map[string]string
+
+func t3src(n ast.Node) string {
+	var b bytes.Buffer
+	printer.Fprint(&b, t3fset, n)
+	return strings.Join(strings.Fields(b.String()), " ")
+}
+
+func mentionsDst(n ast.Node) bool {
+	found := false
+	ast.Inspect(n, func(x ast.Node) bool {
+		if id, ok := x.(*ast.Ident); ok && id.Name == "dst" {
+			found = true
+		}
+		return !found
+	})
+	return found
+}
+
+func isDstIdent(e ast.Expr) bool { id, ok := e.(*ast.Ident); return ok && id.Name == "dst" }
+
+func t3expr(e ast.Expr) string {
+	if se, ok := e.(*ast.SelectorExpr); ok {
+		if id, ok := se.X.(*ast.Ident); ok && id.Name == "bytestr" {
+			if v, ok := t3bytestr[se.Sel.Name]; ok {
+				return "Lit " + coqBytes(v)
+			}
+		}
+	}
+	if bl, ok := e.(*ast.BasicLit); ok {
+		switch bl.Kind {
+		case token.CHAR:
+			if r, _, _, err := strconv.UnquoteChar(bl.Value[1:len(bl.Value)-1], '\''); err == nil && r < 256 {
+				return "Lit " + coqBytes(string([]byte{byte(r)}))
+			}
+		case token.STRING:
+			if s, err := strconv.Unquote(bl.Value); err == nil {
+				return "Lit " + coqBytes(s)
+			}
+		}
+	}
+	if mentionsDst(e) {
+		return "Bad " + coqBytes(t3src(e))
+	}
+	return "Atom " + coqBytes(t3src(e))
+}
+
+func t3emits(args []ast.Expr) []string {
+	var out []string
+	for _, a := range args {
+		out = append(out, "Raw ("+t3expr(a)+")")
+	}
+	return out
+}
+
+func t3block(list []ast.Stmt) string {
+	var out []string
+	for _, st := range list {
+		out = append(out, t3stmt(st)...)
+	}
+	return "[" + strings.Join(out, "; ") + "]"
+}
+
+func t3stmt(st ast.Stmt) []string {
+	opaque := func() []string { return []string{"Opaque " + coqBytes(t3src(st))} }
+	switch st := st.(type) {
+	case *ast.AssignStmt:
+		if !mentionsDst(st) {
+			return []string{"Skip"}
+		}
+		if len(st.Lhs) == 1 && len(st.Rhs) == 1 && isDstIdent(st.Lhs[0]) {
+			if ce, ok := st.Rhs[0].(*ast.CallExpr); ok && len(ce.Args) >= 1 && isDstIdent(ce.Args[0]) {
+				fn := t3src(ce.Fun)
+				for _, a := range ce.Args[1:] {
+					if mentionsDst(a) {
+						return opaque()
+					}
+				}
+				switch {
+				case fn == "append" && len(ce.Args) >= 2:
+					return t3emits(ce.Args[1:])
+				case fn == "appendHeaderLine" && len(ce.Args) == 3:
+					return []string{"HLine (" + t3expr(ce.Args[1]) + ") (" + t3expr(ce.Args[2]) + ")"}
+				default:
+					var as []string
+					for _, a := range ce.Args[1:] {
+						as = append(as, t3expr(a))
+					}
+					return []string{"CallS " + coqBytes(fn) + " [" + strings.Join(as, "; ") + "]"}
+				}
+			}
+		}
+		return opaque()
+	case *ast.ExprStmt, *ast.DeclStmt, *ast.IncDecStmt:
+		if !mentionsDst(st) {
+			return []string{"Skip"}
+		}
+		return opaque()
+	case *ast.IfStmt:
+		if st.Init != nil && mentionsDst(st.Init) || mentionsDst(st.Cond) {
+			return opaque()
+		}
+		els := "[]"
+		switch e := st.Else.(type) {
+		case *ast.BlockStmt:
+			els = t3block(e.List)
+		case *ast.IfStmt:
+			els = "[" + strings.Join(t3stmt(e), "; ") + "]"
+		}
+		return []string{"If " + t3block(st.Body.List) + " " + els}
+	case *ast.ForStmt:
+		if st.Init != nil && mentionsDst(st.Init) || st.Cond != nil && mentionsDst(st.Cond) || st.Post != nil && mentionsDst(st.Post) {
+			return opaque()
+		}
+		return []string{"Loop " + t3block(st.Body.List)}
+	case *ast.RangeStmt:
+		if mentionsDst(st.X) {
+			return opaque()
+		}
+		return []string{"Loop " + t3block(st.Body.List)}
+	case *ast.ReturnStmt:
+		if len(st.Results) == 1 {
+			if isDstIdent(st.Results[0]) {
+				return []string{"Ret []"}
+			}
+			if ce, ok := st.Results[0].(*ast.CallExpr); ok && t3src(ce.Fun) == "append" && len(ce.Args) >= 2 && isDstIdent(ce.Args[0]) {
+				return []string{"Ret [" + strings.Join(t3emits(ce.Args[1:]), "; ") + "]"}
+			}
+		}
+		return opaque()
+	}
+	return opaque()
+}
+
+func t3() {
+	cs := stringConsts("pkg/protocol/consts/headers.go", nil)
+	for k, v := range stringConsts("pkg/protocol/consts/methods.go", nil) {
+		cs[k] = v
+	}
+	for k, v := range stringConsts("pkg/protocol/consts/default.go", nil) {
+		cs[k] = v
+	}
+	t3bytestr = stringConsts("internal/bytestr/bytes.go", cs)
+
+	want := []string{"RequestHeader.AppendBytes", "ResponseHeader.AppendBytes", "Trailer.AppendBytes", "appendHeaderLine"}
+	found := map[string]string{}
+	pkgs, err := parser.ParseDir(t3fset, filepath.Join(repo, "pkg/protocol"), func(fi os.FileInfo) bool {
+		return !strings.HasSuffix(fi.Name(), "_test.go") && !strings.HasPrefix(fi.Name(), "verif_")
+	}, 0)
+	if err != nil {
+		die("t3: %v", err)
+	}
+	for _, p := range pkgs {
+		for _, f := range p.Files {
+			for _, d := range f.Decls {
+				fd, ok := d.(*ast.FuncDecl)
+				if !ok || fd.Body == nil {
+					continue
+				}
+				name := fd.Name.Name
+				if fd.Recv != nil && len(fd.Recv.List) == 1 {
+					t := fd.Recv.List[0].Type
+					if se, ok := t.(*ast.StarExpr); ok {
+						t = se.X
+					}
+					name = t3src(t) + "." + name
+				}
+				for _, w := range want {
+					if w == name {
+						found[name] = t3block(fd.Body.List)
+					}
+				}
+			}
+		}
+	}
+	var sb strings.Builder
+	sb.WriteString("(* GENERATED by /verif/tools/gotrans (T3) from /repo/pkg/protocol — do not edit *)\n")
+	sb.WriteString("From Coq Require Import List Strings.Byte.\nRequire Import Ser.\nImport ListNotations.\n\n")
+	for _, w := range want {
+		body, ok := found[w]
+		if !ok {
+			body = "[Opaque " + coqBytes("function not found: "+w) + "]"
+		}
+		fmt.Fprintf(&sb, "Definition skel_%s : list ser :=\n  %s.\n\n", strings.ReplaceAll(w, ".", "_"), body)
+	}
+	writeIfChanged("SerSkel.v", []byte(sb.String()))
+}
